@@ -57,7 +57,7 @@ CLAIMED = {
         technique="Coq proof (nested-inductive config trees, layout theorems, filtering lemma) + translator + correspondence over carriers x layouts",
     ),
     "C11": dict(
-        text="Coq theorems (all lengths incl. short series, all missing patterns, every regular axis with a whole-second step D>=1, all durations>=0 and tolerances): the operational model of flat_line_test (median step, count=int(threshold)/step, strided windows, n_fill, SUSPECT/FAIL/MISSING order) equals the property's specification with k=floor(threshold/D); floor(floor(thr)/D)=floor(thr/D); window range over present values; short series never flagged. Tied by correspondence on exhaustive small series x duration x tolerance grids. Known finding F18: non-integer steps are floored (Coq refutation).",
+        text="Coq theorems (all lengths incl. short series, all missing patterns, every regular axis with ANY positive step - whole seconds, fractional, sub-second -, all durations>=0 and tolerances): the operational model of flat_line_test (median step in ns, count=trunc(threshold/step), strided windows, n_fill, SUSPECT/FAIL/MISSING order) equals the property's specification with k=floor(threshold/D); window range over present values; short series never flagged. Tied by correspondence on exhaustive small series x duration x tolerance grids and on 0.25/0.5/0.75/1.5/2.5 s axes. F18 (step floored to whole seconds, crash below one second) was found by this check and repaired.",
         design_ref="DESIGN.md §8 C11",
         technique="Coq proof (refinement model=spec incl. floor arithmetic and window folds) + correspondence",
     ),
